@@ -15,10 +15,10 @@ import (
 // a body returns nil when its parameter falls into the residue class (NilMod, NilRes).
 type Node struct {
 	Op     string `json:"op"`
-	Xs     []int  `json:"xs,omitempty"` // slice leaf / from value / pfrom key,value
+	Xs     []int  `json:"xs,omitempty"`    // slice leaf / from value / pfrom key,value
 	Spare  int    `json:"spare,omitempty"` // slice leaf: the source is a window buf[:len] of a buffer with this much capacity behind it
-	F      int    `json:"f,omitempty"`  // function family member
-	A      int    `json:"a,omitempty"`  // function parameters
+	F      int    `json:"f,omitempty"`     // function family member
+	A      int    `json:"a,omitempty"`     // function parameters
 	B      int    `json:"b,omitempty"`
 	NilMod int    `json:"nm,omitempty"` // join bodies: return nil when param mod NilMod == NilRes (NilMod 0: never)
 	NilRes int    `json:"nr,omitempty"`
@@ -97,8 +97,8 @@ func mapP(n *Node) func(int, int) int {
 }
 
 // parameters of join bodies
-func shiftS(x int) int       { return mod(x, 7) }
-func shiftP(k, v int) int    { return mod(k-2*v, 7) }
+func shiftS(x int) int           { return mod(x, 7) }
+func shiftP(k, v int) int        { return mod(k-2*v, 7) }
 func (n *Node) isNil(p int) bool { return n.NilMod > 0 && mod(p, n.NilMod) == mod(n.NilRes, n.NilMod) }
 
 // ---- builder: the real combinators
